@@ -103,7 +103,7 @@ def prop_theorems(pid):
     """Names of the theorems stated in Props/<pid>.lean (namespace = pid)."""
     path = os.path.join(LEAN, "LitedramVerif", "Props", pid + ".lean")
     src = strip_lean_comments(open(path).read())
-    return [m.group(1) for m in re.finditer(r"^\s*theorem\s+([A-Za-z0-9_'.]+)", src, re.M)]
+    return [m.group(1) for m in re.finditer(r"^\s*theorem\s+([A-Za-z0-9_'.!?]+)", src, re.M)]
 
 
 def lean_audit(pid):
